@@ -6,6 +6,10 @@ GROUPS = [
  dict(_L, name='get_mono_channel', entry='h_get_mono_channel', functions=['get_mono_channel'], what='least index after prev mapped to stream+coupled'),
 ]
 META = {}
+GROUPS.append(dict(cls='P', tu='C10_ms_validate_p.c', canary='real', unwind=1, timeout=1200, name='ms_packet_validate_p', entry='h_ms_validate_p', expect_canaries=2,
+    functions=['opus_multistream_packet_validate', 'opus_packet_get_nb_samples', 'opus_packet_get_nb_frames', 'opus_packet_get_samples_per_frame'],
+    trusted=['parser stub carrying the C06 clauses (count from TOC, consumed length within the packet, == len in standard framing)'],
+    what='packet walk under its loop contract, any number of streams (1..255), any length: self-delimited framing for all but the last stream, equal durations, result = common duration <= 120 ms, the per-stream packets tile the input'))
 _M = dict(tu='C10_ms_decoder.c', dfcc=False, canary='real', trusted=['parser stub carrying the C06 clauses (count from TOC, consumed length within the packet)', 'stub sizes/init of the single-stream decoder (C11)'])
 GROUPS += [
  dict(_M, cls='B', name='ms_packet_validate', entry='h_ms_validate', unwind=5, timeout=1800, functions=['opus_multistream_packet_validate', 'opus_packet_get_nb_samples', 'opus_packet_get_nb_frames', 'opus_packet_get_samples_per_frame'],
